@@ -99,9 +99,9 @@ def check(run, prog, tier):
     fresh.check(run, "C08-G", prog, pc, "_BOOT_DEPH", "pure dephasing in direct propagation")
     run.rule("C08-H", "the superoperator and the propagator it is built with read the Hamiltonian and the frame "
                       "frequencies under internal units (U applied to a state equals direct propagation whatever units "
-                      "context the caller is in)", minimum=20)
+                      "context the caller is in)", minimum=15)
     from . import intunits
-    intunits.check_classes(run, prog, "C08-H", [cls.qualname, pc.qualname], 20,
+    intunits.check_classes(run, prog, "C08-H", [cls.qualname, pc.qualname], 15,
                            "times are in femtoseconds: the stored U(t) or its conversion from the rotating frame no "
                            "longer reproduces direct propagation")
 
